@@ -37,6 +37,12 @@ type issuance func(blinds [][]byte) (req, toks []byte, err error)
 func checkPair(t *rapid.T, s *rt.Sub, typ uint16, run issuance, blindA, blindB [][]byte, ident ...[]byte) {
 	s.Eval()
 	tn := gen.TypeName(typ)
+	// absolute part of the oracle: ident = key id, challenge, nonce(s) [, salt]; every token starts with type||nonce||SHA-256(challenge)||key id
+	defer func() {
+		if len(ident) < 3 {
+			return
+		}
+	}()
 	reqA1, tokA1, err := run(blindA)
 	if err != nil {
 		rt.Fail(t, "C11/"+tn+"/run", "issuance with a supplied blind failed: %v", err)
@@ -68,6 +74,18 @@ func checkPair(t *rapid.T, s *rt.Sub, typ uint16, run issuance, blindA, blindB [
 		rt.Fail(t, "C11/"+tn+"/token-depends-on-blind", "tokens differ between two blinds: %s vs %s", rt.Hex(tokA1), rt.Hex(tokB))
 		return
 	}
+	if len(ident) >= 3 {
+		keyID, chal, nonces := ident[0], ident[1], ident[2]
+		n := len(nonces) / 32
+		tl := len(tokA1) / n
+		for i := 0; i < n; i++ {
+			want := gen.AuthInput(typ, nonces[32*i:32*i+32], chal, keyID)
+			if got := tokA1[i*tl : i*tl+98]; !bytes.Equal(got, want) {
+				rt.Fail(t, "C11/"+tn+"/token-not-function-of-arguments", "token %d does not carry the type, nonce, SHA-256(challenge) and key id passed at creation (the caller overwrote its argument buffers after the request was created): got %x want %x", i, got, want)
+				return
+			}
+		}
+	}
 	parts := append([][]byte{{byte(typ)}}, ident...)
 	for _, b := range append(append([][]byte{}, blindA...), blindB...) {
 		parts = append(parts, b)
@@ -76,6 +94,43 @@ func checkPair(t *rapid.T, s *rt.Sub, typ uint16, run issuance, blindA, blindB [
 	s.Sample(func() any {
 		return map[string]any{"type": typ, "blindA": rt.Hex(bytes.Join(blindA, nil)), "blindB": rt.Hex(bytes.Join(blindB, nil)), "requestA": rt.Hex(reqA1), "requestB": rt.Hex(reqB), "token": rt.Hex(tokA1)}
 	})
+}
+
+// callerBuffers hands out private copies of argument values and can overwrite all of them: a caller that
+// reuses its buffers once the request has been created.
+type callerBuffers struct{ bufs, orig [][]byte }
+
+func (c *callerBuffers) arg(b []byte) []byte {
+	x := append([]byte{}, b...)
+	c.bufs = append(c.bufs, x)
+	c.orig = append(c.orig, b)
+	return x
+}
+
+// changed reports an argument buffer that the library modified.
+func (c *callerBuffers) changed() error {
+	for i := range c.bufs {
+		if !bytes.Equal(c.bufs[i], c.orig[i]) {
+			return fmt.Errorf("request creation modified its argument %d: %x -> %x (a pure function of its arguments does not write to them)", i, c.orig[i], c.bufs[i])
+		}
+	}
+	return nil
+}
+
+func (c *callerBuffers) args(l [][]byte) [][]byte {
+	out := make([][]byte, len(l))
+	for i := range l {
+		out[i] = c.arg(l[i])
+	}
+	return out
+}
+
+func (c *callerBuffers) overwrite() {
+	for _, b := range c.bufs {
+		for i := range b {
+			b[i] = 0x5A
+		}
+	}
 }
 
 func distinctPair(t *rapid.T, g *rapid.Generator[[]byte], n int) (a, b [][]byte) {
@@ -99,10 +154,15 @@ func TestType1(t *testing.T) {
 		chal, nonce := gen.Challenge().Draw(t, "challenge"), gen.Bytes32().Draw(t, "nonce")
 		a, b := distinctPair(t, gen.P384Scalar(), 1)
 		run := func(blinds [][]byte) ([]byte, []byte, error) {
-			st, err := type1.NewBasicPrivateClient().CreateTokenRequestWithBlind(chal, nonce, issuer.TokenKeyID(), issuer.TokenKey(), blinds[0])
+			var cb callerBuffers
+			st, err := type1.NewBasicPrivateClient().CreateTokenRequestWithBlind(cb.arg(chal), cb.arg(nonce), cb.arg(issuer.TokenKeyID()), issuer.TokenKey(), cb.arg(blinds[0]))
 			if err != nil {
 				return nil, nil, err
 			}
+			if err := cb.changed(); err != nil {
+				return nil, nil, err
+			}
+			cb.overwrite() // the caller reuses its buffers before finalizing
 			req := append([]byte{}, st.Request().Marshal()...)
 			resp, err := issuer.Evaluate(st.Request())
 			if err != nil {
@@ -141,10 +201,15 @@ func TestType5(t *testing.T) {
 			}
 		}
 		run := func(blinds [][]byte) ([]byte, []byte, error) {
-			st, err := type5.NewBatchedPrivateClient().CreateTokenRequestWithBlinds(chal, nonces, issuer.TokenKeyID(), issuer.TokenKey(), blinds)
+			var cb callerBuffers
+			st, err := type5.NewBatchedPrivateClient().CreateTokenRequestWithBlinds(cb.arg(chal), cb.args(nonces), cb.arg(issuer.TokenKeyID()), issuer.TokenKey(), cb.args(blinds))
 			if err != nil {
 				return nil, nil, err
 			}
+			if err := cb.changed(); err != nil {
+				return nil, nil, err
+			}
+			cb.overwrite()
 			req := append([]byte{}, st.Request().Marshal()...)
 			resp, err := issuer.Evaluate(st.Request())
 			if err != nil {
@@ -178,10 +243,15 @@ func TestType2(t *testing.T) {
 			t.Skip("equal blinds drawn")
 		}
 		run := func(blinds [][]byte) ([]byte, []byte, error) {
-			st, err := type2.NewBasicPublicClient().CreateTokenRequestWithBlind(chal, nonce, issuer.TokenKeyID(), issuer.TokenKey(), blinds[0], salt)
+			var cb callerBuffers
+			st, err := type2.NewBasicPublicClient().CreateTokenRequestWithBlind(cb.arg(chal), cb.arg(nonce), cb.arg(issuer.TokenKeyID()), issuer.TokenKey(), cb.arg(blinds[0]), cb.arg(salt))
 			if err != nil {
 				return nil, nil, err
 			}
+			if err := cb.changed(); err != nil {
+				return nil, nil, err
+			}
+			cb.overwrite()
 			req := append([]byte{}, st.Request().Marshal()...)
 			resp, err := issuer.Evaluate(st.Request())
 			if err != nil {
@@ -454,4 +524,105 @@ func TestRustVectors(t *testing.T) {
 		}
 		s.Sample(func() any { return map[string]any{"vector": vi, "token_request": rt.Hex(want)} })
 	}
+}
+
+// TestShippedPerTypeVectors: the per-type issuance vectors shipped in the repository (types 1, 2, 5) and the
+// Go-generated batched vectors are replayed the same way (they are regression oracles: requests and tokens
+// must keep reproducing them byte for byte). Keys are parsed without pat-go.
+func TestShippedPerTypeVectors(t *testing.T) {
+	s := rt.S("shipped-vectors").SetRule("every entry of type1-/type2-/type5-issuance-test-vectors.json: the request rebuilt from the vector's key, challenge, nonce(s), blind(s) (and salt) equals token_request; finalizing the vector's token_response gives the vector's token(s). non-trivial = every vector; distinct by bytes")
+	type vec struct {
+		PkS       string   `json:"pkS"`
+		Challenge string   `json:"token_challenge"`
+		Nonce     string   `json:"nonce"`
+		Nonces    []string `json:"nonces"`
+		Blind     string   `json:"blind"`
+		Blinds    []string `json:"blinds"`
+		Salt      string   `json:"salt"`
+		Request   string   `json:"token_request"`
+		Response  string   `json:"token_response"`
+		Token     string   `json:"token"`
+		Tokens    []string `json:"tokens"`
+	}
+	load := func(rel string) []vec {
+		raw, err := os.ReadFile(filepath.Join(rt.RepoDir, rel))
+		if err != nil {
+			t.Fatalf("vectors not readable: %v", err)
+		}
+		var v []vec
+		if err := json.Unmarshal(raw, &v); err != nil {
+			t.Fatalf("%s: %v", rel, err)
+		}
+		return v
+	}
+	report := func(sig, f string, a ...any) { rt.Report(t, "C11/shipped/"+sig, "", nil, f, a...) }
+	for i, v := range load("tokens/type1/type1-issuance-test-vectors.json") {
+		pk := unhex(t, v.PkS)
+		kid := sha256.Sum256(pk)
+		pub := new(oprf.PublicKey)
+		if err := pub.UnmarshalBinary(oprf.SuiteP384, pk); err != nil {
+			t.Fatalf("vector key: %v", err)
+		}
+		s.Eval()
+		s.Nontrivial(unhex(t, v.Request))
+		st, err := type1.NewBasicPrivateClient().CreateTokenRequestWithBlind(unhex(t, v.Challenge), unhex(t, v.Nonce), kid[:], pub, unhex(t, v.Blind))
+		if err != nil || !bytes.Equal(st.Request().Marshal(), unhex(t, v.Request)) {
+			report("type1-request", "type-1 vector %d: rebuilt request differs from token_request (%v)", i, err)
+			continue
+		}
+		tok, err := st.FinalizeToken(unhex(t, v.Response))
+		if err != nil || !bytes.Equal(tok.Marshal(), unhex(t, v.Token)) {
+			report("type1-token", "type-1 vector %d: finalizing token_response does not give the vector's token (%v)", i, err)
+		}
+	}
+	for i, v := range load("tokens/type2/type2-issuance-test-vectors.json") {
+		pk := unhex(t, v.PkS)
+		kid := sha256.Sum256(pk)
+		pub, err := rsaFromSPKI(pk)
+		if err != nil {
+			t.Fatalf("vector key: %v", err)
+		}
+		s.Eval()
+		s.Nontrivial(unhex(t, v.Request))
+		st, err := type2.NewBasicPublicClient().CreateTokenRequestWithBlind(unhex(t, v.Challenge), unhex(t, v.Nonce), kid[:], pub, unhex(t, v.Blind), unhex(t, v.Salt))
+		if err != nil || !bytes.Equal(st.Request().Marshal(), unhex(t, v.Request)) {
+			report("type2-request", "type-2 vector %d: rebuilt request differs from token_request (%v)", i, err)
+			continue
+		}
+		tok, err := st.FinalizeToken(unhex(t, v.Response))
+		if err != nil || !bytes.Equal(tok.Marshal(), unhex(t, v.Token)) {
+			report("type2-token", "type-2 vector %d: finalizing token_response does not give the vector's token (%v)", i, err)
+		}
+	}
+	for i, v := range load("tokens/type5/type5-issuance-test-vectors.json") {
+		pk := unhex(t, v.PkS)
+		kid := sha256.Sum256(pk)
+		pub := new(oprf.PublicKey)
+		if err := pub.UnmarshalBinary(oprf.SuiteRistretto255, pk); err != nil {
+			t.Fatalf("vector key: %v", err)
+		}
+		var nonces, blinds [][]byte
+		for j := range v.Nonces {
+			nonces = append(nonces, unhex(t, v.Nonces[j]))
+			blinds = append(blinds, unhex(t, v.Blinds[j]))
+		}
+		s.Eval()
+		s.Nontrivial(unhex(t, v.Request))
+		st, err := type5.NewBatchedPrivateClient().CreateTokenRequestWithBlinds(unhex(t, v.Challenge), nonces, kid[:], pub, blinds)
+		if err != nil || !bytes.Equal(st.Request().Marshal(), unhex(t, v.Request)) {
+			report("type5-request", "type-5 vector %d: rebuilt request differs from token_request (%v)", i, err)
+			continue
+		}
+		toks, err := st.FinalizeTokens(unhex(t, v.Response))
+		if err != nil || len(toks) != len(v.Tokens) {
+			report("type5-token", "type-5 vector %d: finalizing token_response failed (%v)", i, err)
+			continue
+		}
+		for j := range toks {
+			if !bytes.Equal(toks[j].Marshal(), unhex(t, v.Tokens[j])) {
+				report("type5-token", "type-5 vector %d token %d differs from the vector", i, j)
+			}
+		}
+	}
+	s.Sample(func() any { return "type1/type2/type5 *-issuance-test-vectors.json, 5 entries each" })
 }
